@@ -838,6 +838,25 @@ def run_graphspec(ctx):
                 continue
             # guard => precondition, observed: the graph has the order the model computes
             ctx.tally('gs-validate construction accepted', str(plan[0][0]))
+
+        # ---------------- sizes that are not even a valid index ----------------
+        # (memory is outside the model: it says `ok`; the implementation must still end in a clean error)
+        B = str(2 ** 63)
+        for gt, tk in [('simple', ['gnm', B, '0']), ('simple', ['gnd', B, '2']), ('simple', ['gnp', B, '0']), ('simple', ['grid', B]),
+                       ('simple', ['torus', '2', B]), ('simple', ['complete', '1', B])]:
+            r = real.make(gt, tk, ctx.seed)
+            ctx.count('gs-huge', (gt, tuple(tk)), nontrivial=True, sample=dict(graphtype=gt, tokens=tk, outcome=r[0] if r[0] != 'err' else r[2][:60]))
+            ctx.tally('gs-huge outcome', r[1] if r[0] == 'crash' else r[0])
+            if r[0] == 'crash' and r[1] == 'OverflowError':
+                tb, last, rc = confirm_once(('huge',), gt, tk)
+                ctx.violation('counterexample', 'graph argument %r asks for more vertices than an index can hold and ends in OverflowError%s'
+                              % (tk, ' -- confirmed as a traceback of the cnfgen process' if tb else ''),
+                              dict(input=dict(tool='cnfgen', argv=cmdline(gt, tk), graphtype=gt, tokens=tk), exception=r[1], message=r[2],
+                                   child_traceback=tb, child_stderr_last=last, child_exit=rc, stream='huge'), True, site='graphspec-huge', cls='OverflowError')
+            elif r[0] == 'crash':
+                report_crash('huge', gt, tk, r[1], r[2])
+            elif not (r[0] == 'err' and r[2].startswith('The graph is too large')):
+                report_diff('huge', gt, tk, 'huge: expected a clean "too large" error, got %s' % (r[:2],), repr(r[:2]), 'ok (memory not modelled)', 'graphspec_validate_never_crashes')
     finally:
         real.restore()
         os.chdir(cwd)
